@@ -308,6 +308,31 @@ static vnode *random_tree(vrng *r, int flavor)
     return vt_gen(r, &g);
 }
 
+
+/* prior history: a partial protocol-following walk that is abandoned, then a restart with reset or verify
+ * (both must succeed on a valid document). What follows must not depend on it. */
+static bool prior_history(wctx *c, vrng *r)
+{
+    if (!apply_op(c, OP_ENTER, NULL, 0, 0)) return false;
+    uint32_t steps = 1 + vrn(r, 25);
+    for (uint32_t i = 0; i < steps && !c->m.done; i++) {
+        vnode *cur = vc_current(&c->m);
+        bool cont = cur && (cur->kind == K_OBJ || cur->kind == K_ARR);
+        int op = OP_NEXT;
+        if (cont && vrn(r, 10) < 7) op = OP_ENTER;
+        else if (vrn(r, 12) == 0 && c->m.nf > 1) op = OP_LEAVE;
+        if (!apply_op(c, op, NULL, 0, 0)) return false;
+    }
+    vw_count("prior_history_depth_total", (uint64_t)c->m.nf);
+    bool ok; const char *how;
+    if (vrn(r, 2)) { ok = binson_parser_reset(c->p); how = "reset"; } else { ok = binson_parser_verify(c->p); how = "verify"; }
+    vb_printf(&c->trace, "[abandoned] %s ", how);
+    if (!ok) { char what[120]; snprintf(what, sizeof what, "%s returned false on a valid document after a partial traversal (error_flags=%s)", how, verr_name((int)c->p->error_flags)); report(c, "walk:restart-failed", what); return false; }
+    vc_init(&c->m, c->root);
+    vw_count("restarts_with_prior_history", 1);
+    return true;
+}
+
 /* --------------------------------------------------------------------- C03 -- */
 static bool visit(wctx *c, vnode *cont, uint64_t *events)
 {
@@ -345,7 +370,7 @@ static void case_c03(vrng *r, uint64_t caseno)
     bool ok = (root->kind == K_OBJ) ? binson_parser_init_object(c.p, c.buf, c.n) : binson_parser_init_array(c.p, c.buf, c.n);
     uint64_t events = 0;
     if (!ok) report(&c, "c03:init-rejected", "init rejected a valid document");
-    else if (apply_op(&c, OP_ENTER, NULL, 0, 0) && visit(&c, root, &events) && apply_op(&c, OP_LEAVE, NULL, 0, 0)) {
+    else if ((vrn(r, 3) != 0 || prior_history(&c, r)) && apply_op(&c, OP_ENTER, NULL, 0, 0) && visit(&c, root, &events) && apply_op(&c, OP_LEAVE, NULL, 0, 0)) {
         if (memcmp(c.buf, c.doc.p, c.n) != 0) report(&c, "c03:input-modified", "the input buffer was modified");
     }
     vw_count("values_compared", events);
@@ -406,6 +431,7 @@ static void case_walk(vrng *r, uint64_t caseno, char flavor)
     bool ascending_only = flavor == '7' && vrn(r, 3) == 0;
     uint64_t oph = 0;
     if (!ok) { report(&c, "walk:init-rejected", "init rejected a valid document"); goto out; }
+    if (vrn(r, 4) == 0 && !prior_history(&c, r)) goto out;
     if (!apply_op(&c, OP_ENTER, NULL, 0, 0)) goto out;
     while (!c.m.done && steps < limit && !c.dead) {
         steps++;
@@ -623,7 +649,9 @@ static void case_c10(vrng *r, uint64_t caseno)
     binson_writer w;
     binson_writer_init(&w, dst, c.n);
     tctx t = { c.p, &w, true, 0 };
-    t.ok = binson_parser_init_object(c.p, c.buf, c.n) && binson_parser_go_into_object(c.p);
+    t.ok = binson_parser_init_object(c.p, c.buf, c.n);
+    if (t.ok && vrn(r, 3) == 0) t.ok = prior_history(&c, r);       /* abandoned partial walk + reset/verify first */
+    t.ok = t.ok && binson_parser_go_into_object(c.p);
     binson_write_object_begin(&w);
     if (t.ok) transcribe(&t, true);
     t.ok = t.ok && binson_parser_leave_object(c.p);
